@@ -22,6 +22,7 @@ const keyAlias = "C31-disk-tiers-keyed-by-needle-key-only"
 
 func TestMain(m *testing.M) {
 	vlib.Rule("C31: rapid step sequences (12-50 steps) on chunk_cache.NewTieredChunkCache(maxEntries 2-8, scratch dir, diskSizeInUnit 8-64, unitSize 64-1024): SetChunk (two thirds of them from a window of a caller-owned scratch buffer that is overwritten right after SetChunk returned) / GetChunk(minSize) / GetChunkSlice(off,len) / Restart (Shutdown + New on the same dir) over a universe of file ids built from 3 volume ids x 4 keys x 2 cookies (ids share or differ in each component; some written in the key_delta sub-file form). Each id has a per-case fixed size drawn around {1, unit, 4*unit, 8*unit} +-1 and content that is a fixed non-zero function of (volume, key, cookie, position). Oracle: GetChunk returns nothing or exactly the stored bytes of that id with length >= minSize; GetChunkSlice returns nothing or exactly data[off:off+len]; a never-stored id returns nothing; no panic. Non-trivial = a lookup that hit after >=1 disk-volume rotation or a restart, or a lookup of an id that shares its key with another stored id. Distinct = distinct parameters + step list.")
+	vlib.Rule("C31 concurrent stores: generated unit size, 2-8 writer goroutines and 3-10 rounds; in every round all writers are released together and each stores its own file id (distinct needle keys, generated sizes inside one generated disk tier; tiers 1 and 2 bypass the memory tier), optionally with two concurrent lookups of ids of the previous round; the cache is large enough that nothing rotates. Afterwards (optionally after a restart) GetChunk and GetChunkSlice of every id. Oracle, sound under any interleaving: a hit returns exactly the bytes stored for that id (a miss is allowed). Non-trivial = at least one hit. The same property runs under the race detector in the thorough tier.")
 	vlib.Assume("C31: SetChunk takes a private copy, i.e. the caller may re-use its buffer once SetChunk has returned (the unchanged implementation copies; wfs.saveDataAsChunk hands it the upload input buffer); slices returned by lookups are not modified by the harness (readers in weed/filer only copy out of them). The bytes stored for one file id never change (chunks are immutable; both callers store the complete chunk); eviction policy itself (what is kept) is not checked, only that whatever is returned is right")
 	vlib.Main(m)
 }
